@@ -7,7 +7,7 @@
 From Coq Require Import List NArith ZArith Bool Arith Lia Permutation SetoidList.
 From SK Require Import lib.Tok lib.LGraph lib.Mono model.C06_Model lib.C06_Spec proof.C06_All proof.C06_Main model.C11_Model proof.C11_Aut proof.C11_Dedup proof.C11_Main.
 From SK Require Import model.C03_Model model.C04_Model model.C04_Reactor proof.C03_Proof proof.C03_Glue proof.C03_Backward
-                       proof.C04_Glue proof.C04_Template proof.C04_Any proof.C04_Engine proof.C04_Prune proof.C04_Object proof.C04_Chain proof.C04_DefaultChain.
+                       proof.C04_Glue proof.C04_Template proof.C04_Proof proof.C04_Any proof.C04_Engine proof.C04_Prune proof.C04_Object proof.C04_Chain proof.C04_DefaultChain.
 Import ListNotations.
 Local Open Scope Z_scope.
 
@@ -198,3 +198,126 @@ Proof.
   apply (same_compb_spec P p p' HP Ip). apply (proj2 (same_compb_spec H p p' HH (Hinc p Ip))) in Hc.
   unfold same_compb in Hc |- *. rewrite Hc in Hb. exact Hb.
 Qed.
+
+(** * the reaction's own templates *)
+Section OwnImplicit.
+  Variable enum : list N -> list N -> list C06_Model.mapping.
+  Variables (core invert : bool) (G H : hostg).
+  Hypothesis W : pair_wfb G H = true.
+  Hypothesis NH : no_explicit_H G = true.
+  Hypothesis CC : core = true -> centre_carries (its_construct G H) = true.
+  Let A := if invert then H else G.
+  Let B := if invert then G else H.
+  Let tpl := template core invert G H.
+  Let l := dec_side iG eG tpl.
+  Let r := dec_side iH eH tpl.
+  Let D : describes A B tpl := template_describes core invert G H W NH CC.
+  Let PW : pair_wf A B := pair_AB core invert G H W.
+
+  Lemma own_no_XH : has_XH l = false.
+  Proof.
+    unfold has_XH. destruct (existsb _ (gedges l)) eqn:E; [|reflexivity]. exfalso.
+    apply existsb_exists in E. destruct E as ([[u v] x] & _ & Hx). unfold l, tpl in Hx.
+    rewrite !(left_no_H core invert G H W NH) in Hx. discriminate.
+  Qed.
+
+  Theorem own_comp_implicit :
+    forallb (fun p => 0 <=? m_hc (snd p)) (gnodes l) = true ->
+    gwf (tr_host A) -> gwf (tr_pat l) -> oracle_ok enum (tr_host A) (tr_pat l) ->
+    (0 <? length (comps (tr_pat l)))%nat && (length (comps (tr_pat l)) <? length (comps (tr_host A)))%nat = false ->
+    ((length (comps (tr_host A)) <? length (comps (tr_pat l)))%nat = true \/ id_separatingb (tr_host A) (tr_pat l) = true) ->
+    exists T0 : N, forall (T : N) (o : ropts), (T0 <= T)%N ->
+      o_strategy o = SMember 1%N -> o_thr o = Some T -> o_pref o = false -> regenerates_with enum A B tpl l r o.
+  Proof.
+    intros Hnn GH GP Hor NG Hc.
+    apply (comp_regenerates enum A B tpl l r PW D (own_left_of tpl (d_wf _ _ _ D)) own_no_XH Hnn GH GP Hor NG).
+    destruct Hc as [Hc|Hc]; [left; exact Hc|right].
+    rewrite <- tr_pat_ids. apply id_separatingb_sound; [exact GH|exact GP| |exact Hc].
+    intros n In_. rewrite tr_pat_ids in In_. rewrite tr_host_ids. unfold l, tpl in In_. rewrite (pattern_ids core invert G H) in In_. fold tpl in In_.
+    destruct (in_ids_label tpl n In_) as [a Ea]. destruct (d_nodes _ _ _ D n a (assoc_in n (gnodes tpl) Ea)) as (x & _ & Ex & _).
+    exact (label_some_in A n x Ex).
+  Qed.
+
+  Theorem own_bt_implicit :
+    forallb (fun p => 0 <=? m_hc (snd p)) (gnodes l) = true ->
+    gwf (tr_host A) -> gwf (tr_pat l) -> oracle_ok enum (tr_host A) (tr_pat l) ->
+    ((0 <? length (comps (tr_pat l)))%nat && (length (comps (tr_pat l)) <? length (comps (tr_host A)))%nat = true \/
+     (length (comps (tr_host A)) <? length (comps (tr_pat l)))%nat = true \/ id_separatingb (tr_host A) (tr_pat l) = true) ->
+    exists T0 : N, forall (T : N) (o : ropts), (T0 <= T)%N ->
+      o_strategy o = SMember 2%N -> o_thr o = Some T -> o_pref o = false -> regenerates_with enum A B tpl l r o.
+  Proof.
+    intros Hnn GH GP Hor Hc.
+    apply (bt_regenerates enum A B tpl l r PW D (own_left_of tpl (d_wf _ _ _ D)) own_no_XH Hnn GH GP Hor).
+    destruct Hc as [Hc|[Hc|Hc]]; [left; exact Hc|right; left; exact Hc|right; right].
+    rewrite <- tr_pat_ids. apply id_separatingb_sound; [exact GH|exact GP| |exact Hc].
+    intros n In_. rewrite tr_pat_ids in In_. rewrite tr_host_ids. unfold l, tpl in In_. rewrite (pattern_ids core invert G H) in In_. fold tpl in In_.
+    destruct (in_ids_label tpl n In_) as [a Ea]. destruct (d_nodes _ _ _ D n a (assoc_in n (gnodes tpl) Ea)) as (x & _ & Ex & _).
+    exact (label_some_in A n x Ex).
+  Qed.
+End OwnImplicit.
+
+From SK Require Import proof.C04_Fold proof.C04_Default proof.C04_DefaultProof proof.C04_Explicit.
+Section OwnDefault.
+  Variable enum : list N -> list N -> list C06_Model.mapping.
+  Variables (core invert : bool) (G H : hostg).
+  Hypothesis W : pair_wfb G H = true.
+  Hypothesis ME : mode_E G H = true.
+  Let A := if invert then H else G.
+  Let B := if invert then G else H.
+  Hypothesis OK : default_okb A B (template core invert G H) = true.
+  Hypothesis CC : core = true -> centre_carries (its_construct G H) = true.
+  Let A' := substrate invert G H.
+  Let B' := h_to_implicit_host B.
+
+  (** what the default-mode preparation provides for the theorems about any rule *)
+  Lemma default_facts (rc : its) (l r : molg) : rule_of core invert G H = Some (rc, l, r) ->
+    pair_wf A' B' /\ describes A' B' rc /\ left_of rc l /\ has_XH l = false.
+  Proof.
+    intros Er.
+    pose proof (pair_AB' core invert G H W OK) as PW. pose proof (own_describes core invert G H W OK CC) as D.
+    destruct (default_rule A B _ PW D OK) as (rc0 & l0 & r0 & Es & _ & _ & PW' & D').
+    assert (E3 : (rc0, l0, r0) = (rc, l, r)).
+    { unfold rule_of in Er. rewrite ME in Er. rewrite Es in Er. inversion Er. reflexivity. }
+    inversion E3; subst rc0 l0 r0. clear E3.
+    destruct (default_identity_match core invert G H W ME OK CC) as (rc1 & l1 & r1 & Er1 & Hf & LO & _).
+    rewrite Er in Er1. inversion Er1; subst rc1 l1 r1.
+    split; [exact PW'|]. split; [exact D'|]. split; [exact LO|exact Hf].
+  Qed.
+
+  Lemma default_pat_in_host (rc : its) (l r : molg) : rule_of core invert G H = Some (rc, l, r) ->
+    incl (node_ids (tr_pat l)) (node_ids (tr_host A')).
+  Proof.
+    intros Er. destruct (default_facts rc l r Er) as (_ & D' & LO & _).
+    intros n In_. rewrite tr_pat_ids in In_. rewrite tr_host_ids. rewrite (lo_ids _ _ LO) in In_.
+    destruct (in_ids_label rc n In_) as [a Ea]. destruct (d_nodes _ _ _ D' n a (assoc_in n (gnodes rc) Ea)) as (x & _ & Ex & _).
+    exact (label_some_in A' n x Ex).
+  Qed.
+
+  Theorem own_comp_default (rc : its) (l r : molg) : rule_of core invert G H = Some (rc, l, r) ->
+    forallb (fun p => 0 <=? m_hc (snd p)) (gnodes l) = true ->
+    gwf (tr_host A') -> gwf (tr_pat l) -> oracle_ok enum (tr_host A') (tr_pat l) ->
+    (0 <? length (comps (tr_pat l)))%nat && (length (comps (tr_pat l)) <? length (comps (tr_host A')))%nat = false ->
+    ((length (comps (tr_host A')) <? length (comps (tr_pat l)))%nat = true \/ id_separatingb (tr_host A') (tr_pat l) = true) ->
+    exists T0 : N, forall (T : N) (o : ropts), (T0 <= T)%N ->
+      o_strategy o = SMember 1%N -> o_thr o = Some T -> o_pref o = false -> regenerates_with enum A' B' rc l r o.
+  Proof.
+    intros Er Hnn GH GP Hor NG Hc. destruct (default_facts rc l r Er) as (PW' & D' & LO & Hf).
+    apply (comp_regenerates enum A' B' rc l r PW' D' LO Hf Hnn GH GP Hor NG).
+    destruct Hc as [Hc|Hc]; [left; exact Hc|right].
+    rewrite <- tr_pat_ids. exact (id_separatingb_sound _ _ GH GP (default_pat_in_host rc l r Er) Hc).
+  Qed.
+
+  Theorem own_bt_default (rc : its) (l r : molg) : rule_of core invert G H = Some (rc, l, r) ->
+    forallb (fun p => 0 <=? m_hc (snd p)) (gnodes l) = true ->
+    gwf (tr_host A') -> gwf (tr_pat l) -> oracle_ok enum (tr_host A') (tr_pat l) ->
+    ((0 <? length (comps (tr_pat l)))%nat && (length (comps (tr_pat l)) <? length (comps (tr_host A')))%nat = true \/
+     (length (comps (tr_host A')) <? length (comps (tr_pat l)))%nat = true \/ id_separatingb (tr_host A') (tr_pat l) = true) ->
+    exists T0 : N, forall (T : N) (o : ropts), (T0 <= T)%N ->
+      o_strategy o = SMember 2%N -> o_thr o = Some T -> o_pref o = false -> regenerates_with enum A' B' rc l r o.
+  Proof.
+    intros Er Hnn GH GP Hor Hc. destruct (default_facts rc l r Er) as (PW' & D' & LO & Hf).
+    apply (bt_regenerates enum A' B' rc l r PW' D' LO Hf Hnn GH GP Hor).
+    destruct Hc as [Hc|[Hc|Hc]]; [left; exact Hc|right; left; exact Hc|right; right].
+    rewrite <- tr_pat_ids. exact (id_separatingb_sound _ _ GH GP (default_pat_in_host rc l r Er) Hc).
+  Qed.
+End OwnDefault.
